@@ -141,7 +141,10 @@ class DlnaDmrEventContentHandler(ContentHandler):
         if name == "InstanceID":
             self._current_instance = attrs.get("val", "0")
         else:
-            current_instance = self._current_instance or "0"  # safety
+            # Outside of any InstanceID element, assume instance 0 (safety).
+            current_instance = (
+                "0" if self._current_instance is None else self._current_instance
+            )
 
             if current_instance not in self.changes:
                 self.changes[current_instance] = {}
